@@ -22,11 +22,10 @@ Theorem C09_command_conforms : forall d now nowms n args hint r d',
 Proof. exact lists_step. Qed.
 Print Assumptions C09_command_conforms.
 
-(* the reference clauses fix the reply (but for the documented latitude of LPOP/RPOP count 0) and
-   the resulting keyspace *)
+(* the reference clauses fix the reply and the resulting keyspace *)
 Theorem C09_reference_deterministic : forall c a b1 b2 r1 r2,
   accepts c a b1 r1 -> accepts c a b2 r2 ->
-  (forall k, b1 k = b2 k) /\ (r1 = r2 \/ exists r0, c = CErrOr r0).
+  (forall k, b1 k = b2 k) /\ r1 = r2.
 Proof. exact accepts_deterministic. Qed.
 Print Assumptions C09_reference_deterministic.
 
@@ -271,7 +270,9 @@ Proof. repeat split; reflexivity. Qed.
 Example ref_pop_doc :
   ref_popn true 2 [B "one"; B "two"; B "three"] = (RArr [RBulk (B "one"); RBulk (B "two")], [B "three"]) /\
   ref_popn false 2 [B "one"; B "two"; B "three"] = (RArr [RBulk (B "three"); RBulk (B "two")], [B "one"]) /\
-  ref_popn false 9 [B "one"; B "two"] = (RArr [RBulk (B "two"); RBulk (B "one")], []).
+  ref_popn false 9 [B "one"; B "two"] = (RArr [RBulk (B "two"); RBulk (B "one")], []) /\
+  ref_popn true 0 [B "one"; B "two"] = (RArr [], [B "one"; B "two"]) /\
+  ref_popn false 0 [] = (RNil, []).
 Proof. repeat split; reflexivity. Qed.
 Example ref_push_doc :
   snd (ref_push true [B "a"; B "b"; B "c"] []) = [B "c"; B "b"; B "a"] /\
